@@ -74,12 +74,12 @@ def cfg(invs, props=()):
 
 
 def exhaustive(spans, *, maxlen, batches, buffers=(0,), maxruns=1, runflags=((1, 0),), clean_on=False, same_files=False, crashes=False, invs=None,
-               props=(), workers=16, timeout=3000, coverage=False, heap="8g"):
+               props=(), workers=16, timeout=3000, coverage=False, heap="8g", simulate=None, depth=None):
     """model-check Store.tla on a small universe; returns the TLCResult (violated names in .violated)"""
     return tlc.run_tlc("Store", cfg(invs or INVS_INGEST, props),
                        data_exhaustive(spans, maxlen, batches, buffers, maxruns, runflags, clean_on, same_files, crashes),
                        modules=["Store", "StoreProps"], workers=workers, timeout=timeout, coverage=coverage,
-                       jvm="throughput", heap=heap)
+                       jvm="throughput", heap=heap, simulate=simulate, depth=depth)
 
 
 def universe_ingest():
